@@ -21,7 +21,7 @@ def main() -> None:
         data = json.loads(f.read_text())
         changed = False
         for e in data["findings"]:
-            c = e.get("commit", "")
+            c = e.get("commit", "") or ""
             if not c and e.get("status") == "fixed":
                 mm = re.search(r"proposed_fixes/(C\d+)/(\d{4})", e.get("what", ""))
                 if mm:
